@@ -3,6 +3,7 @@ EXTENDS TcpConn
 KAll == {"answer", "silent", "reject", "panic", "short"}
 KQuick == {"answer", "silent", "panic", "short"}
 KOpt == {"answer", "silent", "panic"}
+KStall == {"answer", "silent", "short"}
 KAnswer == {"answer"}
 SAll == SizeClasses
 SSmall == {"small"}
